@@ -170,6 +170,42 @@ def save_violation(verdict, src_kind, src_name, path, mm):
                                 "TRACE=<trace> tlc RaftObs.tla re-evaluates the clause"}, what)
 
 
+SAFETY_PANIC = re.compile(r"conflict with committed entry|is out of range|out of bound|invalid transition|missing log entry|"
+                          r"corrupted, truncated, or lost")
+
+
+def report_panics(verdict, kind, path, panics):
+    """A panic raised by one of the library's own log-safety assertions during a legal schedule is a real execution
+    in which a committed / acknowledged entry was about to be (or had been) lost or overwritten. Other panics are
+    returned as unclassified."""
+    other = []
+    for ptxt in panics or []:
+        m = re.match(r"line (\d+) node (\d+): (.*)", ptxt, re.S)
+        if not m or not SAFETY_PANIC.search(m.group(3)):
+            other.append(ptxt)
+            continue
+        lineno, node, msg = int(m.group(1)), int(m.group(2)), m.group(3)
+        norm = re.sub(r"[0-9a-f]*\d[0-9a-f]*", "N", msg)[:80]
+        run, start = extract_run(path, lineno)
+        run = run[:lineno - start + 1]
+        d = os.path.join(common.ROOT, "replay", PROP)
+        os.makedirs(d, exist_ok=True)
+        tpath = os.path.join(d, "trace-panic-%s-%s.ndjson" % (kind, hashlib.md5(norm.encode()).hexdigest()[:8]))
+        if not os.path.exists(tpath) or True:
+            open(tpath, "w").write("".join(run))
+        events = []
+        for line in run:
+            try:
+                events.append(json.loads(line).get("arg", {}))
+            except Exception:
+                pass
+        sig = {"branch": "raft.panic", "kind": "safety-assertion-panic", "detail": norm}
+        verdict.report(sig, {"trace": tpath, "failing_event_index": lineno - start, "events": events},
+                       "library safety assertion fired on node %d at event #%d of a real RawNode run (%s): %s; trace %s" % (
+                           node, lineno - start, kind, msg[:200], tpath))
+    return other
+
+
 # ------------------------------------------------------------------------------------------- vacuity guard
 
 def corruption_selftest(sample_trace, work):
@@ -403,7 +439,10 @@ def main():
             log("coverage run did not finish (rc=%s timeout=%s); not counted" % (rc.rc, rc.timed_out))
 
     panics = sum(len(s.get("panics") or []) for s in rnd_stats) + len(rep_stats.get("panics") or [])
-    panic_samples = [x for s in rnd_stats for x in (s.get("panics") or [])][:3] + (rep_stats.get("panics") or [])[:3]
+    panic_samples = []
+    for p, s in zip(rnd_files, rnd_stats):
+        panic_samples += report_panics(verdict, "random", p, s.get("panics"))
+    panic_samples += report_panics(verdict, "replay", rep_path, rep_stats.get("panics"))
 
     # ---- 8. divergences / panics that no monitor turned into a violation
     for d in divergences[:5]:
@@ -455,7 +494,7 @@ def main():
         "proposal forwarding disabled, MaxInflightMsgs=256, MaxSizePerMsg unlimited or one entry; ReadIndex and leader transfer not exercised",
         "election timeouts are not simulated with the package RNG: Campaign() is an explicit event, followers tick with TickQuiesced",
     ]
-    if divergences or panics:
+    if divergences or panic_samples:
         if not verdict.violations:
             # behaviour of the library departs from the specification (or it panics) but no clause of C15 was
             # falsified on any real trace: conservative "not shown" (DESIGN 2.2 B3 step 5)
